@@ -68,6 +68,30 @@ def run_bounded(pid, tier, seed):
         return {"crash": traceback.format_exc()[-2000:], "failures": [], "evaluations": 0, "distinct_nontrivial": 0, "samples": [], "scope": "crashed"}
 
 
+LEAN_LEMMAS = {"C03": ["inv_after_history", "inv_after_history_partial"], "C08": ["inv_after_history", "tiling_prefix"], "C07": ["nodup_same_set_length", "pointwise_map"],
+               "C06": ["pointwise_map"], "C15": ["pointwise_map"], "C16": ["values_card_eq_iff_injective"]}
+
+
+def run_lean(pid, tier):
+    """thorough tier: the meta-lemmas the property's contracts lean on (stated as assumptions in the quick tier) are re-checked by Lean"""
+    if tier != "thorough" or pid not in LEAN_LEMMAS:
+        return None
+    import shutil
+    import subprocess
+    src = os.path.join(ROOT, "lean", "Meta.lean")
+    exe = shutil.which("lean")
+    if exe is None or not os.path.exists(src):
+        return {"status": "unavailable", "lemmas": LEAN_LEMMAS[pid]}
+    t = time.time()
+    try:
+        p = subprocess.run([exe, src], capture_output=True, text=True, timeout=1500, cwd=os.path.join(ROOT, "lean"))
+        out = (p.stdout + p.stderr).strip()
+        ok = p.returncode == 0 and "error" not in out and "sorry" not in out
+        return {"status": "checked" if ok else "failed", "lemmas": LEAN_LEMMAS[pid], "checker": "lean (Lean 4 + Mathlib, /verif/lean/Meta.lean)", "seconds": round(time.time() - t, 1), "output": out[-600:]}
+    except Exception as e:
+        return {"status": "unavailable", "lemmas": LEAN_LEMMAS[pid], "output": repr(e)[:200]}
+
+
 def check_property(pid, tier, seed, relock=False, only=None, jobs=None, verbose=False):
     import z3
     t0 = time.time()
@@ -112,6 +136,9 @@ def check_property(pid, tier, seed, relock=False, only=None, jobs=None, verbose=
     if not agg and not only:
         guard_fail.append("zero obligations generated")
 
+    lean = run_lean(pid, tier) if only is None else None
+    if lean and lean["status"] == "failed":
+        guard_fail.append("a Lean meta-lemma no longer checks: " + lean.get("output", "")[-300:])
     # bounded layer
     bounded = None
     if only is None:
@@ -233,6 +260,7 @@ def check_property(pid, tier, seed, relock=False, only=None, jobs=None, verbose=
         "slowest_query_s": round(max([a.get("solver_max_s", 0.0) for a in agg.values()] or [0.0]), 3),
         "solver_budget_per_query_s": 8.0,
         "undecided": undecided[:30],
+        "lean_meta_lemmas": lean or {"status": "not run in this tier" if pid in LEAN_LEMMAS else "none used", "lemmas": LEAN_LEMMAS.get(pid, [])},
         "guards": {"must_fail_twins_refuted": sum(1 for a in agg.values() if a["kind"] == "refute" and a["status"] == "discharged"),
                    "guard_failures": guard_fail, "postcondition_points_covered": sum(o.get("covers", 0) for o in outs)},
         "explanation": "pyvc: verification conditions generated by symbolically executing the real /repo function bodies (re-parsed on this run) "
